@@ -167,7 +167,9 @@ impl World {
             let o = (off - 0x100) as usize;
             let n = width as usize;
             if off % width as u64 != 0 {
-                self.mmio_violation("mmio-config-misaligned", "config", format!("{n}-byte access at config offset {o:#x}"));
+                // Not judged: how a caller-chosen type is split into accesses is safe-mmio's
+                // business, and no property speaks about it. Counted for the evidence only.
+                *self.stats.probes.entry("config_access_not_naturally_aligned").or_insert(0) += 1;
             }
             return match write {
                 None => {
